@@ -382,7 +382,6 @@ func (r *Run) trustedBase() []string {
 }
 
 func (r *Run) addLemmas(prop string) {}
-func (r *Run) addTables(prop string) {}
 
 // replay support (see replay.go)
 func (r *Run) replayed(o *Oblig) bool { return o.Replay != nil && o.Replay.Confirmed }
